@@ -73,7 +73,11 @@ def validateChildParentsAttrs (cas : List ChildParentsAttr) (typePaths : List Ty
         (tp :: seen, if seen.contains tp then es.insert ("Dedicated #[child_parents(...)] instruction for type " ++ tp.pathStr ++ " is already defined.") else es)
       | none => (seen, es)
     let es := (ca.childParents.foldl (fun (st : List String × Errors) cd =>
-      (cd.fieldPathStr :: st.1, if st.1.contains cd.fieldPathStr then st.2.insert "Ident here must be unique." else st.2)) ([], es)).2
+      let es1 := if st.1.contains cd.fieldPathStr then st.2.insert "Ident here must be unique." else st.2
+      let es2 := if cd.typeHint == .unit
+        then es1.insert "Type hint 'as Unit' is not supported in #[child_parents(...)]: members are flattened into the nested struct."
+        else es1
+      (cd.fieldPathStr :: st.1, es2)) ([], es)).2
     (seen, es)) ([], es)).2
 
 /-- `validate_where_attrs` -/
@@ -245,6 +249,12 @@ def attrsByKind (attrs : DataTypeAttrs) : List (TraitAttrCore × Kind) :=
   (kindOrderInto.flatMap fun k => (attrs.iterForKindCore k false).map fun x => (x, k)) ++
   (kindOrderInto.flatMap fun k => (attrs.iterForKindCore k true).map fun x => (x, k))
 
+/-- an entry of an enum-level `#[ghosts(..)]` names a variant of the other type: an index is reported -/
+def enumGhostIdentPass (g : GhostData) (es : Errors) : Errors :=
+  match g.ghostIdent with
+  | .member (.unnamed _) => es.insert "Enum-level #[ghosts(...)] should name a variant of the other type, not an index."
+  | _ => es
+
 /-- `validate`: the diagnostics in report order (empty = accepted) -/
 def validate (input : DataType) : Errors :=
   let attrs := input.attrs
@@ -261,6 +271,8 @@ def validate (input : DataType) : Errors :=
   let es := input.members.foldl (validateMember input isEnum typePaths byKind) es
   match input with
   | .struct s => validateFields s byKind typePaths es
-  | .enum e => e.variants.foldl (fun es v => validateVariantFields v attrs es) es
+  | .enum e =>
+    let es := (attrs.ghostsAttrs.flatMap (·.attr.ghostData)).foldl (fun es g => enumGhostIdentPass g es) es
+    e.variants.foldl (fun es v => validateVariantFields v attrs es) es
 
 end O2o
